@@ -88,19 +88,43 @@ class Piece:
         return self
 
     def D2(self):
+        """debug_assert!(cond, fmt, args..) -> assert(cond);   (paren-matched, any line layout)"""
+        text = self.text
         n = 0
-
-        def rep(m):
-            nonlocal n
+        while True:
+            code = scan(text)
+            m = None
+            for mm in re.finditer(r'\bdebug_assert!\(', text):
+                if code[mm.start()]:
+                    m = mm
+                    break
+            if not m:
+                break
+            op = m.end() - 1
+            cl = match_close(text, code, op)
+            depth = 0
+            cut = cl
+            for k in range(op + 1, cl):
+                if not code[k]:
+                    continue
+                if text[k] in '([{':
+                    depth += 1
+                elif text[k] in ')]}':
+                    depth -= 1
+                elif text[k] == ',' and depth == 0:
+                    cut = k
+                    break
+            cond = ' '.join(text[op + 1:cut].split())
+            end = cl + 1
+            if text[end:end + 1] == ';':
+                end += 1
+            text = text[:m.start()] + 'assert(%s);' % cond + text[end:]
             n += 1
-            return m.group(1) + 'assert(' + m.group(2) + ');'
-        # only the single-line, message-less or messaged form `debug_assert!(cond, "...")`
-        new = re.sub(r'(?m)^([ \t]*)debug_assert!\(([^;\n"]*?)(?:,\s*"[^"\n]*"[^;\n]*)?\);', rep, self.text)
-        if 'debug_assert' in new:
+        if re.search(r'\bdebug_assert', text):
             raise LostAnchor('rule D2: unexpected debug_assert form in %s' % self.label)
         if n:
             self._fired('D2', '%d site(s)' % n)
-        self.text = new
+        self.text = text
         return self
 
     def V1(self):
